@@ -90,7 +90,7 @@ func (c01) Cases(tier string) int {
 }
 
 func (c01) Rule() string {
-	return "L2.gateway-query: 2 generated documents per case over the fields the gateway answers itself through the real Gateway.Query and Gq.query; L2.point: 10 point strings per case (rendered `key[:index][#id]` with ids containing the separators, and arbitrary strings over the separators) through executorGetPointData / isListElement and Pt.parsePoint / Pt.isListElement; corpus of minimised past failures, then random federations (monolith schema partitioned over 2-4 services, one case in twelve a single service, fields homed at 1-2 services, optional priorities) x random data graphs (nulls, empty/long lists, cycles, ids with ':' '#' space, non-ASCII) x type-directed queries (aliases, inline/untyped/named fragments, @skip/@include literal and variable, __typename, node(id)); every fourth case is also sent through GraphQLHandler and the body compared with what Execute returned; every 20th generated case a three-level plan under a list of 40-160 elements, executed 4 times; a case is non-trivial when the gateway made at least 2 service calls; distinct = distinct (federation, query) text; inputs in open known-finding regions are excluded from the random stream and exercised through their canonical replay"
+	return "L2.gateway-query: 2 generated documents per case over the fields the gateway answers itself through the real Gateway.Query and Gq.query; L2.point: 10 point strings per case (rendered `key[:index][#id]` with ids containing the separators, and arbitrary strings over the separators) through executorGetPointData / isListElement and Pt.parsePoint / Pt.isListElement; corpus of minimised past failures, then random federations (monolith schema partitioned over 2-4 services, one case in twelve a single service, fields homed at 1-2 services, optional priorities) x random data graphs (nulls, empty/long lists, cycles, ids with ':' '#' space, non-ASCII) x type-directed queries (aliases, inline/untyped/named fragments, @skip/@include literal and variable, __typename, node(id)); every fourth case is also sent through GraphQLHandler and the body compared with what Execute returned; every 20th generated case a three-level plan under a list of 40-160 elements, executed 4 times; a case is non-trivial when the gateway made at least 2 service calls; distinct = distinct (federation, query) text; inputs in open known-finding regions are excluded from the random stream and exercised through their canonical replay; every eighth generated case also through a gateway in its DEFAULT configuration over the same federation (L0.net-twin: the client library's network queryers, JSON over an in-process http transport) — data, errors and number of requests as over in-process queryers; corpus cases with one object under two response keys"
 }
 
 // GenFedInput draws a random federated input for case i.
@@ -258,6 +258,17 @@ func (c01) Run(c *Ctx, i int) CaseResult {
 		}
 		res.Fails = append(res.Fails, Failure{Channel: "L0.mono", Classifier: cl, What: what, Input: fin, Expected: ffc.Want,
 			Observed: map[string]interface{}{"data": ffc.Out.Data, "error": ErrString(ffc.Out.Err), "plan": PlanText(ffc.Out.Plans), "original_query": in.Query}})
+	}
+	if len(res.Fails) == 0 && i >= len(FedCorpus) && i%8 == 5 && in.ListLen == 0 && len(in.Faults) == 0 && InKnownRegion(fc.Classes) == "" {
+		// the same request through a gateway in its default configuration over the same federation: the client library's
+		// network queryers, variables and data as JSON over an in-process transport
+		spec := in.Spec
+		spec.Parsed = nil
+		tc := NetTwinCase{Spec: &spec, Query: in.Query, OpName: in.OpName, Vars: in.Vars, StoreSeed: in.StoreSeed, OddIDs: in.OddIDs}
+		if nf := RunNetTwin(tc); len(nf) > 0 {
+			res.Fails = append(res.Fails, nf...)
+		}
+		res.Features = append(res.Features, "net-twin")
 	}
 	for k := 0; k < repeat && len(res.Fails) == 0; k++ {
 		again, err := RunFed(c, in, 8*time.Second)
